@@ -67,6 +67,9 @@ type ReplayFile struct {
 	Labels    []string  `json:"tape_labels,omitempty"`
 	Log       []string  `json:"event_log,omitempty"`
 	Toolchain string    `json:"toolchain"`
+	// Crash marks the spec of a run that killed the process: there is no
+	// recorded tape, the run is repeated from its seed.
+	Crash bool `json:"crash,omitempty"`
 }
 
 func mix64(a, b uint64) uint64 {
@@ -125,8 +128,11 @@ func Minimise(t *testing.T, spec RunSpec, tape []uint32, key string, deadline ti
 	for pass := 0; improved && pass < 6 && time.Now().Before(deadline); pass++ {
 		improved = false
 		// 2. zero blocks
-		for _, bs := range []int{64, 16, 4, 1} {
-			for i := 0; i < len(cur); i += bs {
+		for _, bs := range []int{8192, 1024, 64, 16, 4, 1} {
+			if bs > len(cur) && bs > 64 {
+				continue
+			}
+			for i := 0; i < len(cur) && time.Now().Before(deadline); i += bs {
 				j := i + bs
 				if j > len(cur) {
 					j = len(cur)
@@ -151,8 +157,8 @@ func Minimise(t *testing.T, spec RunSpec, tape []uint32, key string, deadline ti
 			}
 		}
 		// 3. delete blocks
-		for _, bs := range []int{32, 8, 2, 1} {
-			for i := 0; i+bs <= len(cur); {
+		for _, bs := range []int{4096, 512, 32, 8, 2, 1} {
+			for i := 0; i+bs <= len(cur) && time.Now().Before(deadline); {
 				cand := append(append([]uint32(nil), cur[:i]...), cur[i+bs:]...)
 				if try(cand) {
 					cur = trim(cand)
@@ -163,7 +169,7 @@ func Minimise(t *testing.T, spec RunSpec, tape []uint32, key string, deadline ti
 			}
 		}
 		// 4. lower single values
-		for i := 0; i < len(cur); i++ {
+		for i := 0; i < len(cur) && time.Now().Before(deadline); i++ {
 			if cur[i] <= 1 {
 				continue
 			}
